@@ -8,6 +8,12 @@ EXTENDS Solver, Gen_Games, Randomization
 MCFamily ==
     CASE IOEnv.MC_FAMILY = "dead" -> RandomSubset(K, DeadGames)
       [] IOEnv.MC_FAMILY = "stop" -> (LET q == StopFamily IN {q[i].g : i \in DOMAIN q})
+      [] IOEnv.MC_FAMILY = "zerow" -> ZeroWGames
+      [] IOEnv.MC_FAMILY = "degen" -> DegenGames
+      [] IOEnv.MC_FAMILY = "forced" -> RandomSubset(K, ForcedGames)
+      [] IOEnv.MC_FAMILY = "gap5" -> Gap5Games
+      [] IOEnv.MC_FAMILY = "minreachrank" -> MinReachRankGames
+      [] IOEnv.MC_FAMILY = "finaldeadend" -> RandomSubset(K, FinalDeadEndGames)
       [] IOEnv.MC_FAMILY = "rand" -> (LET q == RandFamily IN {q[i].g : i \in DOMAIN q})
 
 Init ==
